@@ -946,11 +946,21 @@ func (y *Identity) DerivedDirect() []*Identity {
 }
 
 func FindIdentity(candidates []*Identity, target string) *Identity {
+	return findIdentity(candidates, target, make(map[*Identity]bool))
+}
+
+// an identity with several bases is reached on several ways down from them, it is looked
+// at once (layers of such identities double the ways with each layer)
+func findIdentity(candidates []*Identity, target string, seen map[*Identity]bool) *Identity {
 	for _, candidate := range candidates {
+		if seen[candidate] {
+			continue
+		}
+		seen[candidate] = true
 		if candidate.ident == target {
 			return candidate
 		}
-		if derived := FindIdentity(candidate.derived, target); derived != nil {
+		if derived := findIdentity(candidate.derived, target, seen); derived != nil {
 			return derived
 		}
 	}
